@@ -263,7 +263,9 @@ Definition spec_verdict (steps : list step) (tr : list json) (qn qk pk : bytes) 
   | JObj m =>
       match assoc_last k_signatures m with
       | Some (JObj sm) =>
-          is_sig_map sm && sym_pk_size_ok pk &&
+          (* only the entry asked about has to be readable (F61: signatures is covered by nothing,
+             the entries of other entities must not be able to make the check fail) *)
+          sym_pk_size_ok pk &&
           match jpath [k_signatures; qn; qk] fin with
           | Some (JStr s64) =>
               match b64_decode s64 with
